@@ -6,6 +6,7 @@ import (
 	"os"
 	"runtime"
 	"runtime/pprof"
+	"sort"
 	"strings"
 	"time"
 
@@ -643,11 +644,23 @@ func c14ShardSel(tier string, shard, n int, sel func(name string) bool) *CustomR
 			nsel++
 		}
 	}
-	per := budget / time.Duration(nsel)
+	// the two largest scenarios last: they inherit whatever the small ones left of the budget
+	sort.SliceStable(scs, func(i, j int) bool {
+		big := func(n string) bool { return strings.HasPrefix(n, "S1-") || strings.HasPrefix(n, "S2-") }
+		return !big(scs[i].Name) && big(scs[j].Name)
+	})
+	began := time.Now()
+	left := nsel
 	for _, sc := range scs {
 		if only != "" && !strings.Contains(sc.Name, only) || sel != nil && !sel(sc.Name) {
 			continue
 		}
+		// the time a scenario does not use goes to the ones after it
+		per := (budget - time.Since(began)) / time.Duration(left)
+		if per < time.Second {
+			per = time.Second
+		}
+		left--
 		if run.tainted {
 			run.complete = false
 			break
